@@ -260,8 +260,75 @@ def events_case(case):
     return r
 
 
+def argsev_case(case):
+    """'args are bound to the right-hand side's parameters in order' - and the system they describe is ONE system: the right-hand side, a user Jacobian, a plain
+    event and an event that takes the derivative all see the same constants, in every call, whatever the method and however it is named"""
+    de, I = _imports()
+    r = Res()
+    K_, M_ = 4.0, 0.25            # omega = sqrt(k/m) = 4
+    seen = dict(f=set(), jac=set(), pos=set(), force=set())
+    if case["signature"] == "strict":
+        def f(t, y, k, m):
+            seen["f"].add((k, m)); return np.array([y[1], -(k / m) * y[0]])
+        def jac(t, y, k, m):
+            seen["jac"].add((k, m)); return np.array([[0.0, 1.0], [-(k / m), 0.0]])
+        def pos(t, y, k, m):
+            seen["pos"].add((k, m)); return np.asarray(y[0] - 0.5)
+        def force(t, y, dy, k, m):
+            seen["force"].add((k, m)); return np.asarray(m * dy[1] + k * 0.3)          # zero where y[0] = 0.3
+    else:
+        def f(t, y, k=1.0, m=1.0, **kw):
+            seen["f"].add((k, m)); return np.array([y[1], -(k / m) * y[0]])
+        def jac(t, y, k=1.0, m=1.0, **kw):
+            seen["jac"].add((k, m)); return np.array([[0.0, 1.0], [-(k / m), 0.0]])
+        def pos(t, y, k=1.0, m=1.0, **kw):
+            seen["pos"].add((k, m)); return np.asarray(y[0] - 0.5)
+        def force(t, y, dy, k=1.0, m=1.0, **kw):
+            seen["force"].add((k, m)); return np.asarray(m * dy[1] + k * 0.3)
+    force.requires_dstate = True
+    t0, tf = case["span"]
+    w = 4.0
+    y0 = np.array([np.sin(w * t0), w * np.cos(w * t0)])
+    meth = case["method"]
+    if case.get("as_class"):
+        meth = [c for c in I.explicit_methods() + I.implicit_methods() if c.__name__ == meth][0]
+    rhs = de.DiffRHS(f)
+    if case["jac"]:
+        rhs.hook_jacobian_call(jac)
+    r.n = 1
+    key = "C18/args-events/%s" % case["method"]
+    try:
+        res = de.solve_ivp(rhs, [t0, tf], y0.copy(), method=meth, args=(K_, M_), events=[pos, force], atol=1e-9, rtol=1e-9, **(dict(first_step=case["first_step"]) if case.get("first_step") else {}))
+    except Exception as e:
+        r.v(key + "/raises", "args are bound for the whole system (right-hand side, Jacobian, events)", case, observed=(repr(e)[:120] + " <- " + repr(getattr(e, "__cause__", ""))[:160]), expected="a result")
+        return r
+    for nm_, st in seen.items():
+        if st - {(K_, M_)}:
+            r.v(key + "/constants", "every callable of the system receives the constants bound from args", dict(case, callable=nm_), observed=sorted(st)[:4], expected=[(K_, M_)])
+    lo, hi = min(t0, tf), max(t0, tf)
+
+    def roots(c):
+        out = []
+        for n in range(-20, 21):
+            for th in (np.arcsin(c), np.pi - np.arcsin(c)):
+                t_ = (th + 2 * np.pi * n) / w
+                if lo + 1e-6 < t_ < hi - 1e-6:
+                    out.append(t_)
+        return sorted(out)
+    for fn, label, c in ((pos, "plain event", 0.5), (force, "event taking the derivative", 0.3)):
+        got = sorted(float(e.t) for e in res.t_events if e.event is fn)
+        want = roots(c)
+        if len(got) != len(want) or (want and max(abs(x - y) for x, y in zip(got, want)) > 2e-3):      # (how sharply a root is located is C07; constants that do not arrive move these roots by 0.05 or more)
+            r.v(key + "/events", "events are those of the system described by args", dict(case, event=label), observed=got[:8], expected=want[:8])
+    yend = np.array([np.sin(w * tf), w * np.cos(w * tf)])
+    if float(np.max(np.abs(np.asarray(res.y)[..., -1] - yend))) > 1e-4:
+        r.v(key + "/end-state", "args are bound to the right-hand side's parameters in order", case, observed=np.asarray(res.y)[..., -1].tolist(), expected=yend.tolist())
+    r.out(("argsev", case["method"], case["signature"], bool(case["jac"]), tf > t0, sorted(len(v) for v in seen.values())))
+    return r
+
+
 def run_case(case):
-    return dict(facade=facade_case, args=args_case, scipy=scipy_case, events=events_case)[case["section"]](case)
+    return dict(facade=facade_case, args=args_case, scipy=scipy_case, events=events_case, argsev=argsev_case)[case["section"]](case)
 
 
 def run(ctx):
@@ -314,6 +381,12 @@ def run(ctx):
                 cases.append(dict(section="args", method=nm, span=list(span), args=vals))
                 if len(vals) <= 3 and (len(vals) > 0):
                     cases.append(dict(section="args", method=nm, span=list(span), args=vals, defaults=True))
+    # S3b: args together with a user Jacobian and events (one of them taking the derivative), strict and permissive signatures, methods by name and by class
+    for nm, ascls, fs in (("RK45", False, None), ("RK8713MSolver", True, None), ("RadauIIA5", False, None), ("RadauIIA5", True, None), ("RK4", False, 0.015625), ("ABAS5O6H", False, 0.015625)):
+        for span in ((0.0, 2.0), (1.0, -1.0)):
+            for sig in ("strict", "permissive"):
+                for jc in ((True, False) if nm == "RadauIIA5" else (True,)):
+                    cases.append(dict(section="argsev", method=nm, as_class=ascls, span=list(span), signature=sig, jac=jc, first_step=fs))
     # S4: max_step
     for nm in ("RK45", "DOPRI45", "RK4", "Euler", "ABAS5O6H", "ImplicitMidpoint", "RadauIIA5", "RK87") + (() if ctx.quick else ("BackwardEuler", "GaussLegendre4", "RK1412", "AHE")):
         for span in fwd + [(1.0, -1.0), (2.0, 0.5)]:
@@ -340,7 +413,7 @@ def run(ctx):
                 for te in ((None,) if span[1] < span[0] else (None, [span[0] + 0.25 * (span[1] - span[0]), span[0] + 0.75 * (span[1] - span[0])])):
                     cases.append(dict(section="scipy", method=nm, scipy=sp, span=list(span), shape=shape, t_eval=te, tol=1e-8))
     ctx.rule = ("sub-products: S1 every registered method name (%d) + 4 classes x 3 spans (incl. backward) x tolerances; S2 all 31 non-empty subsets of a 5-point lattice of the span "
-                "(+ unsorted and repeated variants) x state shapes (1,), (2,), (2,2) x spans x methods; S3 args tuples of length 0..3 with distinguishable parameters; "
+                "(+ unsorted and repeated variants) x state shapes (1,), (2,), (2,2) x spans x methods; S3 args tuples of length 0..3 with distinguishable parameters; S3b args x {user Jacobian, plain event, derivative-taking event} x signatures {strict, defaults} x 6 methods by name / class x 2 directions; "
                 "S4 max_step in {0.1, 0.5} x spans of every sign/direction x methods; S5 scipy cross-check; oracle: closed form, the underlying system, the object API driven by hand; "
                 "distinct = distinct (adaptive?, shape rank, t_eval?, max_step, default tol?, direction) classes" % len(names))
     ctx.assumptions += ["t_eval on backward spans is rejected by the facade by design and not exercised", "accuracy is demanded of adaptive methods only (2e3*tol*(1+|y0|)); fixed-step methods are compared with the object API",
